@@ -1,6 +1,7 @@
 pub mod c01;
 pub mod c02;
 pub mod c11;
+pub mod c13;
 pub mod replay;
 
 use crate::common::{Coverage, Ctx};
@@ -11,6 +12,7 @@ pub fn dispatch(ctx: &Ctx) -> Option<Coverage> {
         "C02" => c02::run_c02(ctx),
         "C10" => c02::run_c10(ctx),
         "C11" => c11::run_c11(ctx),
+        "C13" => c13::run(ctx),
         "C12" => c11::run_c12(ctx),
         _ => return None,
     })
